@@ -312,7 +312,7 @@ func (r *transport) handleCacheHit(
 
 	// Staleness irrespective of any allowance granted by the request (max-stale):
 	// must-revalidate and no-cache are not overridden by it (RFC 9111 §5.2.2.2, §5.2.2.4).
-	age := freshness.Age.Value + r.clock.Since(freshness.Age.Timestamp)
+	age := internal.AddSaturating(freshness.Age.Value, r.clock.Since(freshness.Age.Timestamp))
 	expired := freshness.IsStale || age >= freshness.UsefulLife
 	mustValidate := (expired && ccResp.MustRevalidate()) ||
 		(hasRespNoCache && !isRespNoCacheQualified) // Unqualified no-cache: must revalidate before serving from cache
